@@ -89,8 +89,14 @@ func linSym(v ssa.Value) Lin {
 // linOf normalises an integer SSA value.
 func linOf(v ssa.Value) Lin { return linOfS(v, map[ssa.Value]bool{}) }
 
+// linSubst: while a Case with a min/max choice is evaluated, the chosen argument stands for the call.
+var linSubst map[ssa.Value]ssa.Value
+
 func linOfS(v ssa.Value, seen map[ssa.Value]bool) Lin {
 	linOf := func(v ssa.Value) Lin { return linOfS(v, seen) }
+	if r, ok := linSubst[v]; ok && r != v {
+		return linOf(r)
+	}
 	switch x := v.(type) {
 	case *ssa.Parameter:
 		if site := helperSite[x.Parent()]; site != nil {
@@ -288,6 +294,10 @@ func wrapFreeNode(cond ssa.Value, at *VNode) bool {
 	}
 	hyps := hypsAtNode(at)
 	for _, sb := range subs {
+		// lemma: x − (x % m) never wraps (x % m ≤ x for unsigned x)
+		if rem, ok := sb.Y.(*ssa.BinOp); ok && rem.Op == token.REM && (rem.X == sb.X || canon(rem.X) == canon(sb.X)) {
+			continue
+		}
 		if ok, _ := entails(hyps, linOf(sb.Y).add(linOf(sb.X), -1)); !ok {
 			return false
 		}
@@ -351,17 +361,112 @@ func entails(hyps []Hyp, t Lin) (bool, string) {
 
 // A Case is one value a (possibly phi / min / max) expression can take, with the comparisons known on that path.
 type Case struct {
-	V    ssa.Value
-	Hyps []Hyp
+	V     ssa.Value
+	Hyps  []Hyp
+	Subst map[ssa.Value]ssa.Value // min/max calls inside V → the argument chosen in this case
+}
+
+// lin: linear form of v under this case's min/max choices.
+func (c Case) lin(v ssa.Value) Lin {
+	old := linSubst
+	linSubst = c.Subst
+	defer func() { linSubst = old }()
+	return linOf(v)
+}
+
+// minMaxCalls lists the builtin min/max calls inside the arithmetic expression tree of v (innermost first).
+func minMaxCalls(v ssa.Value, out *[]*ssa.Call, seen map[ssa.Value]bool, d int) {
+	if v == nil || seen[v] || d > 8 {
+		return
+	}
+	seen[v] = true
+	switch x := v.(type) {
+	case *ssa.BinOp:
+		if x.Op == token.ADD || x.Op == token.SUB || x.Op == token.MUL {
+			minMaxCalls(x.X, out, seen, d+1)
+			minMaxCalls(x.Y, out, seen, d+1)
+		}
+	case *ssa.Convert:
+		minMaxCalls(x.X, out, seen, d+1)
+	case *ssa.ChangeType:
+		minMaxCalls(x.X, out, seen, d+1)
+	case *ssa.Call:
+		if b, ok := x.Call.Value.(*ssa.Builtin); ok && (b.Name() == "min" || b.Name() == "max") && len(x.Call.Args) >= 2 && len(x.Call.Args) <= 3 {
+			for _, a := range x.Call.Args {
+				minMaxCalls(a, out, seen, d+1)
+			}
+			*out = append(*out, x)
+		}
+	}
+}
+
+// expandMinMax splits a case on the value of every min/max nested inside its expression
+// (min(a,b) = a with a ≤ b, or b with b ≤ a; dually for max). At most 16 sub-cases.
+func expandMinMax(c Case, top bool) []Case {
+	var calls []*ssa.Call
+	minMaxCalls(c.V, &calls, map[ssa.Value]bool{}, 0)
+	if top {
+		// a min/max at the very top is handled by the prover itself (some / all arguments)
+		var inner []*ssa.Call
+		for _, m := range calls {
+			if ssa.Value(m) != c.V {
+				inner = append(inner, m)
+			}
+		}
+		calls = inner
+	}
+	if len(calls) == 0 || len(calls) > 4 {
+		return []Case{c}
+	}
+	out := []Case{c}
+	for _, m := range calls {
+		var next []Case
+		isMin := m.Call.Value.(*ssa.Builtin).Name() == "min"
+		for _, cur := range out {
+			for i, a := range m.Call.Args {
+				sub := map[ssa.Value]ssa.Value{}
+				for k, v := range cur.Subst {
+					sub[k] = v
+				}
+				sub[m] = a
+				nc := Case{V: cur.V, Hyps: append([]Hyp{}, cur.Hyps...), Subst: sub}
+				for j, b := range m.Call.Args {
+					if j == i {
+						continue
+					}
+					la, lb := nc.lin(a), nc.lin(b)
+					if isMin {
+						nc.Hyps = append(nc.Hyps, Hyp{la.add(lb, -1), "min picks " + canon(a)})
+					} else {
+						nc.Hyps = append(nc.Hyps, Hyp{lb.add(la, -1), "max picks " + canon(a)})
+					}
+				}
+				next = append(next, nc)
+			}
+		}
+		out = next
+		if len(out) > 16 {
+			return []Case{c}
+		}
+	}
+	return out
 }
 
 // cases expands phis (to the given depth) into their edge values with edge conditions.
 func cases(v ssa.Value, base []Hyp, depth int) []Case {
+	var out []Case
+	for _, c := range casesRaw(v, base, depth) {
+		out = append(out, expandMinMax(c, true)...)
+	}
+	return out
+}
+
+func casesRaw(v ssa.Value, base []Hyp, depth int) []Case {
 	if pr, ok := v.(*ssa.Parameter); ok && depth > 0 {
 		if site := helperSite[pr.Parent()]; site != nil {
 			for i, q := range pr.Parent().Params {
 				if q == pr && i < len(site.Call.Args) {
-					return cases(site.Call.Args[i], base, depth)
+					return casesRaw(site.Call.Args[i], base, depth)
 				}
 			}
 		}
@@ -372,7 +477,7 @@ func cases(v ssa.Value, base []Hyp, depth int) []Case {
 			var out []Case
 			for _, r := range vf.rets[h] {
 				hy := append(append([]Hyp{}, base...), hypsAtNode(vf.nodeOf[r])...)
-				out = append(out, cases(r.Results[0], hy, depth-1)...)
+				out = append(out, casesRaw(r.Results[0], hy, depth-1)...)
 			}
 			if len(out) > 0 {
 				return out
@@ -386,11 +491,11 @@ func cases(v ssa.Value, base []Hyp, depth int) []Case {
 				continue
 			}
 			h := append(append([]Hyp{}, base...), edgeHyps(ph.Block(), i)...)
-			out = append(out, cases(e, h, depth-1)...)
+			out = append(out, casesRaw(e, h, depth-1)...)
 		}
 		return out
 	}
-	return []Case{{v, base}}
+	return []Case{{V: v, Hyps: base}}
 }
 
 // proveLE proves v ≤ bound (+k) on every case of v, in the context of instruction at (dominating hyps).
@@ -414,14 +519,16 @@ func proveLECase(c Case, bound Lin) (bool, string) {
 			switch b.Name() {
 			case "min":
 				for _, a := range call.Call.Args {
-					if ok, w := proveLECase(Case{a, c.Hyps}, bound); ok {
-						return true, "min arg " + w
+					for _, sc := range expandMinMax(Case{V: a, Hyps: c.Hyps, Subst: c.Subst}, true) {
+						if ok, w := proveLECase(sc, bound); ok {
+							return true, "min arg " + w
+						}
 					}
 				}
 				return false, ""
 			case "max":
 				for _, a := range call.Call.Args {
-					if ok, _ := proveLECase(Case{a, c.Hyps}, bound); !ok {
+					if ok, _ := proveLECase(Case{V: a, Hyps: c.Hyps, Subst: c.Subst}, bound); !ok {
 						return false, ""
 					}
 				}
@@ -429,7 +536,7 @@ func proveLECase(c Case, bound Lin) (bool, string) {
 			}
 		}
 	}
-	return entails(c.Hyps, linOf(c.V).add(bound, -1))
+	return entails(c.Hyps, c.lin(c.V).add(bound, -1))
 }
 
 // proveGE proves v ≥ bound on every case.
@@ -440,7 +547,7 @@ func proveGE(v ssa.Value, bound Lin, at *ssa.BasicBlock) (bool, string) {
 			if b, ok := call.Call.Value.(*ssa.Builtin); ok && b.Name() == "max" {
 				found := false
 				for _, a := range call.Call.Args {
-					if ok, _ := entails(c.Hyps, bound.add(linOf(a), -1)); ok {
+					if ok, _ := entails(c.Hyps, bound.add(c.lin(a), -1)); ok {
 						found = true
 					}
 				}
@@ -450,7 +557,7 @@ func proveGE(v ssa.Value, bound Lin, at *ssa.BasicBlock) (bool, string) {
 				return false, "max: no argument ≥ bound"
 			}
 		}
-		if ok, _ := entails(c.Hyps, bound.add(linOf(c.V), -1)); !ok {
+		if ok, _ := entails(c.Hyps, bound.add(c.lin(c.V), -1)); !ok {
 			return false, fmt.Sprintf("cannot show %s ≥ %s", canon(c.V), bound.String())
 		}
 	}
@@ -471,7 +578,14 @@ func noWrap(v ssa.Value, hyps []Hyp, seen map[ssa.Value]bool, fail *[]string) {
 			// need y - x ≤ 0, on every case of the operands
 			for _, cx := range cases(x.X, h, 2) {
 				for _, cy := range cases(x.Y, cx.Hyps, 2) {
-					if ok, _ := entails(cy.Hyps, linOf(cy.V).add(linOf(cx.V), -1)); !ok {
+					mix := Case{Subst: map[ssa.Value]ssa.Value{}}
+					for k, v := range cx.Subst {
+						mix.Subst[k] = v
+					}
+					for k, v := range cy.Subst {
+						mix.Subst[k] = v
+					}
+					if ok, _ := entails(cy.Hyps, mix.lin(cy.V).add(mix.lin(cx.V), -1)); !ok {
 						*fail = append(*fail, fmt.Sprintf("unsigned subtraction %s may wrap (cannot show %s ≥ %s)", canon(x), canon(cx.V), canon(cy.V)))
 					}
 				}
@@ -479,14 +593,25 @@ func noWrap(v ssa.Value, hyps []Hyp, seen map[ssa.Value]bool, fail *[]string) {
 		}
 		if x.Op == token.ADD && isUnsigned(x.Type()) {
 			// a+b must be bounded by some symbol known to dominate it: a+b ≤ Y for a hypothesis symbol Y, or an operand constant ≤ small and … (we only accept the hypothesis form)
-			sum := linOf(x)
-			ok := false
-			for _, hy := range h {
-				for s := range hy.L.T {
-					t := sum.add(Lin{T: map[string]int64{s: 1}}, -1)
-					if e, _ := entails(h, t); e {
-						ok = true
+			// under every min/max choice inside the sum: a+b ≤ Y for a symbol Y of a hypothesis or of the sum's own operands
+			ok := true
+			for _, sc := range expandMinMax(Case{V: x, Hyps: h}, false) {
+				sum := sc.lin(x)
+				okCase := false
+				syms := map[string]bool{}
+				for _, hy := range sc.Hyps {
+					for s := range hy.L.T {
+						syms[s] = true
 					}
+				}
+				for s := range syms {
+					t := sum.add(Lin{T: map[string]int64{s: 1}}, -1)
+					if e, _ := entails(sc.Hyps, t); e {
+						okCase = true
+					}
+				}
+				if !okCase {
+					ok = false
 				}
 			}
 			// x + small constant where x < something is covered above; a bare "+1" on an instance counter is accepted (cannot reach 2^64 in practice) only when one operand is a constant ≤ 1
@@ -509,6 +634,12 @@ func noWrap(v ssa.Value, hyps []Hyp, seen map[ssa.Value]bool, fail *[]string) {
 		}
 	case *ssa.Convert:
 		noWrap(x.X, hyps, seen, fail)
+	case *ssa.Call:
+		if b, ok := x.Call.Value.(*ssa.Builtin); ok && (b.Name() == "min" || b.Name() == "max") {
+			for _, a := range x.Call.Args {
+				noWrap(a, hyps, seen, fail)
+			}
+		}
 	}
 }
 
